@@ -13,7 +13,7 @@ use std::rc::Rc;
 pub const DEF: PropDef = PropDef {
     id: "C19",
     level: "exploration",
-    rule: "(1) every program of the reference grammar's canonical corpus (all statement kinds in three contexts, operator chains, lists, calls), the hand-written corpus, and all degenerate-poetic / stray-control programs of C09, every constant-assignment form x target x right-hand side of C18; (2) the mention-sequence family: 20 templates (6 of them with statements spanning lines) that place up to 4 mentions in every traversal context (assignment target and operands, subscripts, list tails, call name and arguments, function name and parameters, conditions and blocks, mutation operand / destination / parameter, consecutive statements) x every filling from {x, X, the x, y, pronoun, a call fun taking x, the variable fun, a call x taking x}; oracle: linting returns without panic in both builds, leaves the program (Debug rendering) untouched, equals the stable merge by line of the two passes run separately (pass order on ties), is identical for a second fresh linter, and the repeated-identifier diagnostics equal the reference mention rule computed by an independent field-order traversal (reported iff same spelling as the previous variable mention and not a callee name; callee names count as previous mentions; line of the mention); (3) lint histories: all ordered pairs (thorough: also triples over a subset) of 73 programs (incl. texts beginning with blank lines) linted one after the other on one fresh thread through cli::linter::lint and cli::linter::run — every result must equal what the program gives when linted alone; non-trivial = programs with at least two variable mentions / every history; distinct = distinct text",
+    rule: "(1) every program of the reference grammar's canonical corpus (all statement kinds in three contexts, operator chains, lists, calls), the hand-written corpus, and all degenerate-poetic / stray-control programs of C09, every constant-assignment form x target x right-hand side of C18, operator chains / lists / argument lists / subscript chains of 2..100 operands in 5 repeat patterns; (2) the mention-sequence family: 20 templates (6 of them with statements spanning lines) that place up to 4 mentions in every traversal context (assignment target and operands, subscripts, list tails, call name and arguments, function name and parameters, conditions and blocks, mutation operand / destination / parameter, consecutive statements) x every filling from {x, X, the x, y, pronoun, a call fun taking x, the variable fun, a call x taking x}; oracle: linting returns without panic in both builds, leaves the program (Debug rendering) untouched, equals the stable merge by line of the two passes run separately (pass order on ties), is identical for a second fresh linter, and the repeated-identifier diagnostics equal the reference mention rule computed by an independent field-order traversal (reported iff same spelling as the previous variable mention and not a callee name; callee names count as previous mentions; line of the mention); (3) lint histories: all ordered pairs (thorough: also triples over a subset) of 73 programs (incl. texts beginning with blank lines) linted one after the other on one fresh thread through cli::linter::lint and cli::linter::run — every result must equal what the program gives when linted alone; non-trivial = programs with at least two variable mentions / every history; distinct = distinct text",
     assumptions: &["'spells the same name' is exact spelling equality; sequences in which adjacent mentions differ only in letter case are skipped as unspecified", "a callee name counts as the previous mention for what follows and is never reported itself (the only reading under which the pinned tree satisfies the property); names used both as callee and as variable are included"],
     build,
     exhaustive: true,
@@ -243,6 +243,21 @@ fn build(tier: Tier) -> Box<dyn Check> {
             for e in c18::RHS {
                 texts.push(format!("{}\nsay 9\n", c18::fill(f, t, e)));
             }
+        }
+    }
+    // operator chains and lists of n operands with repeats at every position (walkers that unroll chains into
+    // fixed buffers change behaviour at 8 / 16 / 17 / 32 ...)
+    for n in [2usize, 7, 8, 9, 15, 16, 17, 18, 19, 31, 32, 33, 34, 64, 65, 100] {
+        for pat in [&["x", "y", "y"][..], &["x", "x", "y"], &["x", "y"], &["x"], &["y", "the zed", "the zed", "x"]] {
+            let names: Vec<&str> = (0..n).map(|i| pat[i % pat.len()]).collect();
+            texts.push(format!("say {}\n", names.join(" plus ")));
+            texts.push(format!("say {}\nsay {}\n", names.join(" times "), names[n - 1]));
+            texts.push(format!("put {} into {}\n", names.join(" minus "), names[0]));
+            texts.push(format!("say 1 plus {}\n", names.join(", ")));
+            texts.push(format!("rock w with {}\n", names.join(", ")));
+            texts.push(format!("say fun taking {}\n", names.join(", ")));
+            texts.push(format!("say {}\n", names.join(" at ")));
+            texts.push(format!("if {}\nsay {}\n\n", names.join(" and "), names[n - 1]));
         }
     }
     let t: Space<usize> = Space::of((0..TEMPLATES.len()).collect());
